@@ -147,9 +147,21 @@ def rule_width(repo, rule):
     for name in sorted(width_methods):
         fi = ci.methods[name]
         wp = [p for p in fi.params if p in WIDTH_PARAMS][0]
+        # the effective width: the parameter itself, or a local that is the parameter with None replaced by the default
+        #   w = D if wp is None else wp   /   w = wp if wp is not None else D
+        W = {wp}
+        for a in ast.walk(fi.node):
+            if isinstance(a, ast.Assign) and len(a.targets) == 1 and isinstance(a.targets[0], ast.Name) and isinstance(a.value, ast.IfExp) \
+                    and a.targets[0].id != wp:
+                tt, bb, oo = norm(a.value.test), norm(a.value.body), norm(a.value.orelse)
+                if (tt in ("%s is None" % wp, "%s == None" % wp) and oo == wp) or (tt in ("%s is not None" % wp, "%s != None" % wp) and bb == wp):
+                    others = [x for x in ast.walk(fi.node) if isinstance(x, ast.Name) and x.id == a.targets[0].id
+                              and isinstance(x.ctx, ast.Store) and x is not a.targets[0]]
+                    if not others:
+                        W.add(a.targets[0].id)
         # is the width consumed by a run-time check?
         consumed = [t for t in ast.walk(fi.node) if isinstance(t, ast.If) and any(
-            isinstance(x, ast.Name) and x.id == wp for x in ast.walk(t.test)) and ".value" in norm(t.test)]
+            isinstance(x, ast.Name) and x.id in W for x in ast.walk(t.test)) and ".value" in norm(t.test)]
         where = fi.loc()
         calls = [c for c in ast.walk(fi.node) if isinstance(c, ast.Call) and isinstance(c.func, ast.Attribute)
                  and c.func.attr in width_methods and not any(isinstance(p, ast.Raise) for p in parents(c))]
@@ -164,7 +176,7 @@ def rule_width(repo, rule):
                 if kw.arg == cw:
                     arg = kw.value
             term = "%s(%s=...) calls %s with %s=%s" % (name, wp, c.func.attr, cw, norm(arg) if arg is not None else "<default>")
-            if arg is not None and any(isinstance(x, ast.Name) and x.id == wp for x in ast.walk(arg)):
+            if arg is not None and any(isinstance(x, ast.Name) and x.id in W for x in ast.walk(arg)):
                 rule.ok(fi.loc(c), fi.fq, term, "the width the check uses is the width the gadget enforces")
             elif consumed:
                 rule.violation(fi.loc(c), fi.fq, term, "the run-time check uses `%s` but the gadget is built with the default "
@@ -177,7 +189,7 @@ def rule_width(repo, rule):
                  if "PrivValBool" in norm(n.elt)]
         for g in loops:
             ln = _length_of(g.iter, fi.node)
-            if ln == {wp}:
+            if ln is not None and len(ln) == 1 and ln <= W:
                 rule.ok(fi.loc(g.iter), fi.fq, "bits built: %s (length %s)" % (norm(g.iter), wp))
             elif ln is None:
                 rule.undecided(fi.loc(g.iter), fi.fq, "bits built: %s" % norm(g.iter), "length of the iterated sequence not derivable")
@@ -198,7 +210,7 @@ def rule_width(repo, rule):
         # run-time test uses the width
         for t in consumed:
             txt = norm(t.test)
-            if "bit_length() > %s" % wp in txt or "bit_length() <= %s" % wp in txt or "bit_length() >= %s" % wp in txt:
+            if any("bit_length() %s %s" % (op_, w_) in txt for op_ in (">", "<=", ">=") for w_ in W):
                 rule.ok(fi.loc(t), fi.fq, "run-time test: %s" % txt[:80])
     return width_methods
 
@@ -235,6 +247,25 @@ def rule_delegation(repo, rule):
                     continue
                 if at.endswith(".lc") and conv.get(at[:-3]) == p:
                     continue
+                # by operand kind: on every path an operand of that class can take, the argument is ens(p).lc - or p.lc where
+                # the converter hands that class back unchanged
+                ensfi = ci.methods.get(ens)
+                if ensfi is not None:
+                    from ..bykind import expr_by_kind, identity_on
+                    kinds = {"LinCombFxp": ("LinCombFxp",), "LinCombBool": ("LinCombBool",), "LinComb": ("LinComb",),
+                             "int": ("int",), "float": ("float",)}
+                    got = expr_by_kind(fi, c, c.args[i], p, kinds)
+                    ep = [q for q in ensfi.params if q not in ("self", "cls")][0]
+                    bad_kind = None
+                    for k, exprs in got.items():
+                        allowed = set(good)
+                        if identity_on(ensfi, ep, kinds[k]):
+                            allowed.add("%s.lc" % p)
+                        if not exprs or any(norm(e) not in allowed for e in exprs):
+                            bad_kind = k
+                            break
+                    if bad_kind is None:
+                        continue
                 problems.append("operand `%s` passed as `%s`, not converted with %s" % (p, at, ens))
             term = "%s -> self.lc.%s(%s)" % (name, c.func.attr, ", ".join(norm(a) for a in c.args))
             if problems:
